@@ -60,11 +60,13 @@ def dump_crate(crate, log=None):
     smir = os.path.join(CACHE, 'mir', '%s.%s.smir' % (crate, hsh))
     if os.path.exists(mir) and os.path.exists(smir) and os.path.getsize(mir) > 0 and os.path.getsize(smir) > 0:
         return mir, smir, 0.0, True
-    # remove stale dumps of this crate
-    for f in os.listdir(os.path.join(CACHE, 'mir')):
-        if f.startswith(crate + '.') and (f.endswith('.mir') or f.endswith('.smir')):
+    # keep at most a few recent dumps of this crate (several checkouts may be in use)
+    old = sorted((f for f in os.listdir(os.path.join(CACHE, 'mir')) if f.startswith(crate + '.') and f.endswith('.mir')),
+                 key=lambda f: os.path.getmtime(os.path.join(CACHE, 'mir', f)))
+    for f in old[:-3]:
+        for g in (f, f[:-4] + '.smir'):
             try:
-                os.unlink(os.path.join(CACHE, 'mir', f))
+                os.unlink(os.path.join(CACHE, 'mir', g))
             except OSError:
                 pass
     t = time.time()
